@@ -467,7 +467,7 @@ def run_shard(spec, acc):
     if spec["mode"] == "meta":
         return run_meta(spec, acc)
     tier, k, n = spec["tier"], spec["shard"], spec["nshards"]
-    total = 2000 if tier == "quick" else 70000
+    total = 4000 if tier == "quick" else 70000
     rng = random.Random("C08/%s/%s" % (spec["seed"], k))
     for j in range(total // n):
         w = check_case(rng.randrange(1 << 48), acc)
